@@ -217,7 +217,7 @@ class X12Base(object):
 
         @rtype: string
         """
-        for loop in self.loops:
+        for loop in reversed(self.loops):
             if loop[0] == 'ISA':
                 return loop[1]
         return None
@@ -228,7 +228,7 @@ class X12Base(object):
 
         @rtype: string
         """
-        for loop in self.loops:
+        for loop in reversed(self.loops):
             if loop[0] == 'GS':
                 return loop[1]
         return None
@@ -239,7 +239,7 @@ class X12Base(object):
 
         @rtype: string
         """
-        for loop in self.loops:
+        for loop in reversed(self.loops):
             if loop[0] == 'ST':
                 return loop[1]
         return None
